@@ -17,33 +17,32 @@ From EV Require Import Base.Bytes gen.Consts Base.GoSem gen.Pure Helpers.Helpers
 (* ---- address.go ---- *)
 Theorem tie_IsSystemAccountAddress : forall a, P.IsSystemAccountAddress a = is_system_account_address a.
 Proof. intros a. unfold P.IsSystemAccountAddress, is_system_account_address. tie. Qed.
+#[global] Hint Rewrite tie_IsSystemAccountAddress : pure_tie.
 
 Theorem tie_IsEmptyAddress : forall a, P.IsEmptyAddress a = Some (is_empty_address a).
-Proof.
-  intros a. unfold P.IsEmptyAddress. tie.
-Qed.
+Proof. intros a. unfold P.IsEmptyAddress. tie. Qed.
+#[global] Hint Rewrite tie_IsEmptyAddress : pure_tie.
 
 Theorem tie_IsSmartContractAddress : forall a, P.IsSmartContractAddress a = is_sc_address a.
-Proof.
-  intros a. unfold P.IsSmartContractAddress, is_sc_address. rewrite tie_IsEmptyAddress. tie.
-Qed.
+Proof. intros a. unfold P.IsSmartContractAddress, is_sc_address. tie. Qed.
+#[global] Hint Rewrite tie_IsSmartContractAddress : pure_tie.
 
 Theorem tie_IsMetachainIdentifier : forall id, P.IsMetachainIdentifier id = Some (is_metachain_identifier id).
 Proof.
-  intros id. unfold P.IsMetachainIdentifier, is_metachain_identifier. cbv zeta. rewrite ?go_for_range_len.
+  intros id. unfold P.IsMetachainIdentifier, is_metachain_identifier. tie_callees. cbv zeta. rewrite ?go_for_range_len.
   rewrite (go_for_upto_all (fun b => (b2n b =? C.metaChainShardIdentifier)%N) false).
   - destruct id as [|b r]; [reflexivity|]. tie.
   - intros i b Hi. rewrite (go_index_nth _ _ _ Hi). tie.
 Qed.
+#[global] Hint Rewrite tie_IsMetachainIdentifier : pure_tie.
 
 Theorem tie_IsSmartContractOnMetachain : forall id a, P.IsSmartContractOnMetachain id a = is_sc_on_metachain id a.
-Proof.
-  intros id a. unfold P.IsSmartContractOnMetachain, is_sc_on_metachain.
-  rewrite tie_IsMetachainIdentifier, tie_IsSmartContractAddress. tie.
-Qed.
+Proof. intros id a. unfold P.IsSmartContractOnMetachain, is_sc_on_metachain. tie. Qed.
+#[global] Hint Rewrite tie_IsSmartContractOnMetachain : pure_tie.
 
 Theorem tie_IsAllowedToSaveUnderKey : forall k, P.IsAllowedToSaveUnderKey k = is_allowed_to_save_under_key k.
 Proof. intros k. unfold P.IsAllowedToSaveUnderKey, is_allowed_to_save_under_key. tie. Qed.
+#[global] Hint Rewrite tie_IsAllowedToSaveUnderKey : pure_tie.
 
 (* ================================================================== *)
 (* transported laws                                                     *)
